@@ -500,7 +500,7 @@ func membSuites(tier string) []*Suite {
 	for _, n := range []int{9, 10} {
 		add(membBase{name: "fresh-ct", seats: n, mode: pt.CompetitionMode_CT, blind: blindStd()}, depthBig)
 	}
-	return ss
+	return append(ss, c03SchedSuites(tier)...)
 }
 
 func init() {
